@@ -206,6 +206,8 @@ class Lib:
             "exp": LibFunc("cmath.exp", lambda i, x: sv.exp(sv.as_cx(norm(x)))),
             "pi": sv.PI,
         }
+        from . import libext
+        libext.load_all(self)
 
     def _red_operand(self, interp, a):
         a = norm(a)
